@@ -53,6 +53,7 @@ func setupCanary() {
 	}
 	os.MkdirAll(realCanaryDir, 0755)
 	os.WriteFile(filepath.Join(realCanaryDir, "secret.txt"), []byte(canaryContent), 0644)
+	os.WriteFile(filepath.Join(realCanaryDir, "pkg.zy"), []byte("(def canaryLeaked 7)\n"), 0644)
 	os.Setenv(canaryEnv, "canary-env-value")
 }
 
@@ -64,7 +65,10 @@ func canaryIntact() string {
 		return "canary file changed or removed"
 	}
 	ents, _ := os.ReadDir(realCanaryDir)
-	if len(ents) != 1 {
+	if zb, err := os.ReadFile(filepath.Join(realCanaryDir, "pkg.zy")); err != nil || string(zb) != "(def canaryLeaked 7)\n" {
+		return "canary script file changed or removed"
+	}
+	if len(ents) != 2 {
 		return fmt.Sprintf("canary directory now has %d entries", len(ents))
 	}
 	if os.Getenv(canaryEnv) != "canary-env-value" {
@@ -85,6 +89,12 @@ func isCrossing(op string) bool {
 
 var c08ArgShapes = []string{
 	"",
+	// names with the extensions the interpreter itself knows about, existing and not, and the directory itself
+	fmt.Sprintf("%q", canaryDir+"/pkg.zy"),
+	fmt.Sprintf("%q", canaryDir+"/nosuch.zy"),
+	fmt.Sprintf("%q", canaryDir+"/pkg"),
+	fmt.Sprintf("%q", canaryDir),
+	fmt.Sprintf("(quote %s)", "pkg.zy"),
 	fmt.Sprintf("%q", canaryFile),
 	fmt.Sprintf("%q %q", canaryFile, "x"),
 	"(quote " + "secret.txt" + ")",
